@@ -470,6 +470,19 @@ func (vc *VC) lemmaByCases(lem *Contract, env *SEnv) {
 		if k == len(rs) {
 			ce := env.child()
 			ce.proving = true
+			// facts produced while translating this case (unfoldings of recursive spec functions on its literals)
+			// are local to the case: they are asserted only inside the obligations of this case
+			n0 := len(vc.facts)
+			vc.unfoldSeen = nil
+			var caseObls []*Obl
+			defer func() {
+				local := append([]*Term{}, vc.facts[n0:]...)
+				vc.facts = vc.facts[:n0]
+				for _, o := range caseObls {
+					o.Local = local
+					o.NFacts = n0
+				}
+			}()
 			var label []string
 			for i, r := range rs {
 				ce.vars[r.name] = &SVal{CI: big.NewInt(vals[i])}
@@ -501,8 +514,10 @@ func (vc *VC) lemmaByCases(lem *Contract, env *SEnv) {
 					vc.foldedCases++
 					continue
 				}
-				vc.obls = append(vc.obls, &Obl{Name: fmt.Sprintf("%s#lemma.%d[%s]", vc.funcName(), i, strings.Join(label, ",")), Kind: "lemma", Guard: TTrue, Cond: cond,
-					NFacts: len(vc.facts), Desc: fmt.Sprintf("lemma case %s (%s:%d): %s", strings.Join(label, ","), en.File, en.Line, en.Src)})
+				o := &Obl{Name: fmt.Sprintf("%s#lemma.%d[%s]", vc.funcName(), i, strings.Join(label, ",")), Kind: "lemma", Guard: TTrue, Cond: cond,
+					NFacts: len(vc.facts), Desc: fmt.Sprintf("lemma case %s (%s:%d): %s", strings.Join(label, ","), en.File, en.Line, en.Src)}
+				vc.obls = append(vc.obls, o)
+				caseObls = append(caseObls, o)
 			}
 			return
 		}
